@@ -36,6 +36,8 @@ func (s Step) String() string {
 		return fmt.Sprintf("join(r%d<-load of the newest %d entries of r%d)", s.R, s.PC, s.S)
 	case "joinalien":
 		return fmt.Sprintf("cross-key-merges(r%d <-> log written with another link key)", s.R)
+	case "joinimpostor":
+		return fmt.Sprintf("join(r%d<-log whose head is a copy of r%d's own %s entry #%d with %s, same hash)", s.R, s.R, s.Payload, s.S, []string{"another payload", "no links", "another payload and no links"}[s.PC%3])
 	case "burst":
 		return fmt.Sprintf("concurrent-burst(r%d: %d appends || merges of every other replica || reader)", s.R, s.PC)
 	case "setident":
@@ -46,9 +48,15 @@ func (s Step) String() string {
 	return fmt.Sprintf("%s(r%d)", s.Op, s.R)
 }
 
-// ExpectsError: operations that the library must refuse (and that must leave the log as it was).
+// ExpectsError: operations that the library refuses (and that must leave the log as it was). "joinimpostor"
+// may be refused or succeed; see MustNotChange.
 func (s Step) ExpectsError() bool {
-	return s.Op == "denyappend" || s.Op == "joinrejected" || s.Op == "joinalien"
+	return s.Op == "denyappend" || s.Op == "joinrejected" || s.Op == "joinalien" || s.Op == "joinimpostor"
+}
+
+// MustNotChange: operations after which the replica must be as before whether or not an error is returned.
+func (s Step) MustNotChange() bool {
+	return s.Op == "joinimpostor" || s.Op == "joinself" || s.Op == "joinempty" || s.Op == "joinforeign"
 }
 
 type History struct {
@@ -162,7 +170,10 @@ func Gen(seed int64, idx int, o GenOpts) *History {
 		}
 		if o.Failures && len(h.Steps) < n && rng.Intn(7) == 0 {
 			// a refused operation or a fork, followed by ordinary traffic
-			switch rng.Intn(5) {
+			switch rng.Intn(6) {
+			case 5:
+				// a log offering, as its head, a same-hash object that differs from what this replica holds
+				h.Steps = append(h.Steps, Step{Op: "joinimpostor", R: s.R, S: rng.Intn(1000), PC: rng.Intn(3), Payload: []string{"head", "head", "interior"}[rng.Intn(3)]})
 			case 0:
 				h.Steps = append(h.Steps, Step{Op: "denyappend", R: s.R, Payload: pay()})
 			case 1, 2:
@@ -605,6 +616,42 @@ func (x *Exec) Do(i int) StepResult {
 			if tmp, err = ipfslog.NewLog(x.W.Store.API(), x.W.Idents[x.Writer[s.S]], lo2); err != nil {
 				panic(err)
 			}
+		}
+		_, jerr := l.Join(tmp, -1)
+		return StepResult{Err: jerr}
+	case "joinimpostor":
+		// Whether this merge is refused or succeeds, it offers nothing new: the replica must stay as it is and
+		// keep handing out the entries it verified, not the offered look-alikes.
+		var pool []iface.IPFSLogEntry
+		if s.Payload == "interior" {
+			pool = l.Values().Slice()
+		} else {
+			pool = l.Heads().Slice()
+		}
+		if len(pool) == 0 {
+			return StepResult{}
+		}
+		victim := pool[s.S%len(pool)]
+		if victim == nil {
+			return StepResult{}
+		}
+		ce := victim.Copy()
+		if s.PC%3 != 1 {
+			ce.SetPayload([]byte(string(victim.GetPayload()) + "-forged"))
+		}
+		if s.PC%3 != 0 {
+			ce.SetNext(nil)
+			ce.SetRefs(nil)
+		}
+		ents := l.GetEntries()
+		ents.Set(victim.GetHash().String(), ce)
+		lo := x.W.LogOpts(x.W.LogID)
+		lo.AccessController = nil
+		lo.Entries = ents
+		lo.Heads = []iface.IPFSLogEntry{ce}
+		tmp, err := ipfslog.NewLog(x.W.Store.API(), x.W.Idents[x.Writer[s.R]], lo)
+		if err != nil {
+			panic(err)
 		}
 		_, jerr := l.Join(tmp, -1)
 		return StepResult{Err: jerr}
